@@ -29,7 +29,11 @@ RULE = ("each evaluation is one simulated run: one shared parsed chart, 1-4 read
         "3-25 read-only operations each, one seeded schedule. Distinct = distinct plan digest; "
         "non-trivial = >= 3 operations including >= 1 on an absent instrument/difficulty or a "
         "failing query, and for multi-client runs >= 1 context switch in the middle of an "
-        "operation")
+        "operation. 40 % of the runs keep a second chart with a different track set in the "
+        "process and direct 30 % of the operations at it; 20 % inject aborts inside read-only "
+        "operations; a third of the concurrent runs are cold (no observation before or between "
+        "operations). Every result is compared with the same operation on a fresh parse made at "
+        "that moment AND on a fresh parse in a process forked from the pristine image")
 ASSUMPTIONS = [
     "atomicity model: pre-emption between source lines of chartparse frames (and at operation "
     "boundaries); interleavings inside one C call are out of reach, which is also where the GIL "
